@@ -17,7 +17,8 @@ EXPLANATION = (
     "missing-address hint table and codes 513, 530-533, 538. Non-interference over all call graphs is not decided."
     " ADDED LATER: R3-BASE-DECIDES: the mutability bit consulted for an assignment or an address-of is the one of the base of the reference (def-use); R6 the mutability analyzer visits every expression (T2); the coercion relation of C07.R5 is shared (what may silently become a pointer)."
     " ROUNDS 5-6: R7-DESLICE-TAG: ArrayByView only under a test for Slice, ArrayByPointer only under SlicePointer, at every construction site of the typer."
-    " ROUND 9: C10.R10-PASS-KEEPS-NODE is shared for the constness and mutability passes, with its struct mode: a struct impl rebuilds the node on every path or on none (the mutability pass relies on the constness pass rejecting every address-of inside a constant).")
+    " ROUND 9: C10.R10-PASS-KEEPS-NODE is shared for the constness and mutability passes, with its struct mode: a struct impl rebuilds the node on every path or on none (the mutability pass relies on the constness pass rejecting every address-of inside a constant)."
+    " ROUND 10: C07.R7-CALL-ANALYZER-VISITS is shared: E512/E513 and E531-E533 are raised only where the call analyzer looks.")
 
 MU = "alpha::analyzer::mutability::"
 FC = "alpha::analyzer::function_calls::"
